@@ -431,13 +431,19 @@ class DiscriminatedUnionUnpackerBuilder(AbstractUnpackerBuilder):
                     f"{variants_type_expr}, {discriminator.field!r}, "
                     "discriminator) from None"
                 )
+            # only the lookup of the variant's unpacker is guarded: an
+            # exception raised by the unpacker itself is not a missing variant
+            variant_call_args = variant_method_call[len(variant_method_name) :]
             with lines.indent("try:"):
                 if spec.builder.is_nailed:
-                    lines.append(f"return {chosen_cls}.{variant_method_call}")
+                    lines.append(
+                        f"variant_unpacker = {chosen_cls}"
+                        f".{variant_method_name}"
+                    )
                 else:
                     lines.append(
-                        f"return {spec.attrs_registry_name}"
-                        f"[{chosen_cls}].{variant_method_call}"
+                        f"variant_unpacker = {spec.attrs_registry_name}"
+                        f"[{chosen_cls}].{variant_method_name}"
                     )
             with lines.indent("except (KeyError, AttributeError):"):
                 lines.append(f"variants_map = {variants_map}")
@@ -460,14 +466,14 @@ class DiscriminatedUnionUnpackerBuilder(AbstractUnpackerBuilder):
                 with lines.indent("try:"):
                     if spec.builder.is_nailed:
                         lines.append(
-                            "return variants_map[discriminator]"
-                            f".{variant_method_call}"
+                            "variant_unpacker = variants_map[discriminator]"
+                            f".{variant_method_name}"
                         )
                     else:
                         lines.append(
-                            f"return {spec.attrs_registry_name}["
+                            f"variant_unpacker = {spec.attrs_registry_name}["
                             "variants_map[discriminator]]"
-                            f".{variant_method_call}"
+                            f".{variant_method_name}"
                         )
                 with lines.indent("except KeyError:"):
                     lines.append(
@@ -475,6 +481,7 @@ class DiscriminatedUnionUnpackerBuilder(AbstractUnpackerBuilder):
                         f"{variants_type_expr}, {discriminator.field!r}, "
                         "discriminator) from None"
                     )
+            lines.append(f"return variant_unpacker{variant_call_args}")
         else:
             with lines.indent(f"for variant in {variants}:"):
                 if spec.builder.is_nailed:
@@ -1223,8 +1230,7 @@ def unpack_typed_dict(spec: ValueSpec) -> Expression:
     }
     all_keys = list(annotations.keys())
     required_keys = [
-        plain_str(k)
-        for k in getattr(spec.type, "__required_keys__", all_keys)
+        plain_str(k) for k in getattr(spec.type, "__required_keys__", all_keys)
     ]
     optional_keys = [
         plain_str(k) for k in getattr(spec.type, "__optional_keys__", [])
